@@ -136,7 +136,7 @@ func (t *TypedValue[V]) Compute(computeFunc func(currentValue V, exists bool) (n
 		}
 
 		return newValue, ierrors.Wrap(err, "failed to compute new value")
-	} else if newValueBytes, newValueBytesErr := t.vToBytes(newValue); err != nil {
+	} else if newValueBytes, newValueBytesErr := t.vToBytes(newValue); newValueBytesErr != nil {
 		return currentValue, ierrors.Wrap(newValueBytesErr, "failed to encode new value")
 	} else if err = t.kv.Set(t.keyBytes, newValueBytes); err != nil {
 		return currentValue, ierrors.Wrap(err, "failed to store new value in KV store")
